@@ -176,7 +176,9 @@ namespace SA.PkgState
 theorem C09_no_hidden_process_state :
     Gen.pkgVarNames_dnscommands = ["BadCodec", "BadCommand", "BadConn", "BadErrors", "BadFrag", "BadIp", "BadLen", "BadServerFull", "BadUser", "BadVersion", "CmdError", "CmdLogin", "CmdPacket", "CmdSetOptions", "CmdTestDownstreamEncoder", "CmdTestDownstreamFragmentSize", "CmdTestMultiQuery", "CmdTestUpstreamEncoder", "CmdVersion", "Commands", "Digits", "ErrTimeout", "LazyModeOk", "NoData", "VersionNotOk", "VersionOk"] ∧
     Gen.pkgVarNames_dnsutil = ["DotRegex", "DownloadCodecCheck", "ErrCaseSwap", "ErrDeadlineExceeded", "ErrInvalidSequenceNumber", "ErrStreamBroken", "ErrTooLong", "QueryTypeA", "QueryTypeAAAA", "QueryTypeCname", "QueryTypeMx", "QueryTypeNull", "QueryTypePrivate", "QueryTypeSrv", "QueryTypeTxt", "QueryTypesByPriority"] ∧
-    Gen.pkgVarNames_enc = ["Base128Encoding", "Base192Encoding", "Base32Encoding", "Base64Encoding", "Base64uEncoding", "Base85Encoding", "Base91Encoding", "RawEncoding", "cb128Invert", "cbInitialized", "iodineBase32Encoding", "iodineBase64Encoding", "iodineBase64uEncoding", "iodineBase91Encoding"] := by decide
+    Gen.pkgVarNames_enc = ["Base128Encoding", "Base192Encoding", "Base32Encoding", "Base64Encoding", "Base64uEncoding", "Base85Encoding", "Base91Encoding", "RawEncoding", "cb128Invert", "cbInitialized", "iodineBase32Encoding", "iodineBase64Encoding", "iodineBase64uEncoding", "iodineBase91Encoding"] ∧
+    Gen.singletonFields_enc = [] ∧
+    Gen.singletonFields_dnscommands = ["Command.Code", "Command.NeedsUserId", "Command.NewRequest", "Command.NewResponse"] := by decide
 end SA.PkgState
 
 #print axioms SA.PkgState.C09_no_hidden_process_state
